@@ -4,6 +4,7 @@ import (
 	"fmt"
 	"math/rand"
 	"strconv"
+	"strings"
 )
 
 type Gen struct {
@@ -25,6 +26,11 @@ type Gen struct {
 
 func (g *Gen) name(p string) string {
 	g.n++
+	// One name in seven of data nodes, keys, typedefs and groupings begins with an underscore
+	// (an identifier may): decided by the counter, not by a draw.
+	if g.n%7 == 3 && (p == "n" || p == "k" || p == "t" || p == "g") {
+		return fmt.Sprintf("_%s%d", p, g.n)
+	}
 	return fmt.Sprintf("%s%d", p, g.n)
 }
 
@@ -59,6 +65,16 @@ func (g *Gen) impPrefix(f *Mod) string {
 		// like a module name still denotes the module it was declared for)
 		for _, im := range f.Imports {
 			pool = append(pool, im.Mod.Name, im.Mod.Name)
+		}
+		// the file's own prefix, or that of an earlier import, in capital letters: prefixes
+		// are case-sensitive, "P3" and "p3" are two prefixes
+		if up := strings.ToUpper(f.Prefix); up != f.Prefix {
+			pool = append(pool, up)
+		}
+		for _, im := range f.Imports {
+			if up := strings.ToUpper(im.Prefix); up != im.Prefix {
+				pool = append(pool, up)
+			}
 		}
 		q := pool[g.pick(len(pool))]
 		taken := q == f.Prefix
@@ -707,12 +723,14 @@ func (g *Gen) node(s *Scope, c ctx) *Node {
 		}
 	case "leaf-list":
 		n.Type = g.typeRef(s)
+		n.OrdUser = ordUser(n.Name)
 	case "container", "case":
 		n.Body = sub()
 		if g.pick(6) > 0 { // one in six stays childless (an "extension point" for augments)
 			g.fillScope(n.Body, ctx{inRPC: c.inRPC, depth: c.depth + 1, inGroup: c.inGroup, pk: k}, 3)
 		}
 	case "list":
+		n.OrdUser = ordUser(n.Name)
 		n.Body = sub()
 		kn := g.name("k")
 		n.Key = kn
@@ -937,4 +955,14 @@ func (f *Mod) importPrefixFor(m *Mod) string {
 		}
 	}
 	return ""
+}
+
+// ordUser decides from the name alone (no draw from the generator's random source, so the
+// sets of earlier runs keep their shape) whether a list or leaf-list is ordered by the user.
+func ordUser(name string) bool {
+	h := 0
+	for i := 0; i < len(name); i++ {
+		h = h*31 + int(name[i])
+	}
+	return h%3 == 0
 }
